@@ -968,6 +968,9 @@ class World:
         index = 0
         try:
             source = interval(period) if kind == "interval" else delay(period)
+            if op.get("defer"):
+                # `ticker = interval(p)` made now, iterated later: the grid starts with the loop
+                await (time + op["defer"])
             async for now in source:
                 self.log(a, kind + ".tick", index, now)
                 if index >= len(bodies):
